@@ -108,6 +108,8 @@ const INVALID_FORMS: &[&str] = &[
     "unknown_key",
     "revoked_key",
     "body_byte_appended",
+    "body_bit_flipped",
+    "body_last_byte_dropped",
     "sig_over_other_path",
     "sig_over_path_and_query",
     "sig_over_wrong_subject",
@@ -152,6 +154,29 @@ async fn build(m: &Material, r: &Route, form: &str, who: &Ident) -> Option<RawRe
             }
             let mut b = body.clone().unwrap_or_default();
             b.push(0);
+            body = Some(b);
+        }
+        "body_bit_flipped" => {
+            if r.subject != Subject::Body {
+                return None;
+            }
+            let mut b = body.clone().unwrap_or_default();
+            if b.is_empty() {
+                return None;
+            }
+            // deterministic position derived from the body itself
+            let i = (vkit::fnv64(&b) as usize) % b.len();
+            b[i] ^= 0x01;
+            body = Some(b);
+        }
+        "body_last_byte_dropped" => {
+            if r.subject != Subject::Body {
+                return None;
+            }
+            let mut b = body.clone().unwrap_or_default();
+            if b.pop().is_none() {
+                return None;
+            }
             body = Some(b);
         }
         "sig_over_other_path" => {
@@ -486,7 +511,7 @@ async fn discover(client: &reqwest::Client, server: &TestServer, m: &Material, r
         candidates.insert(p.clone());
         candidates.insert(format!("{V1}{}", if p == "/" { "" } else { &p }));
     }
-    rep.count("router_source_route_literals", parse_router_source().len() as u64);
+    rep.max("router_source_route_literals", parse_router_source().len() as u64);
     for d in DICTIONARY.iter().chain(PUBLIC.iter()) {
         candidates.insert(d.to_string());
     }
@@ -498,7 +523,7 @@ async fn discover(client: &reqwest::Client, server: &TestServer, m: &Material, r
     if let Ok(r) = http::raw(client, &server.url, &req, WAIT).await {
         if let Ok(v) = serde_json::from_slice::<Value>(&r.body) {
             if let Some(paths) = v.get("paths").and_then(|p| p.as_object()) {
-                rep.count("openapi_paths", paths.len() as u64);
+                rep.max("openapi_paths", paths.len() as u64);
                 for p in paths.keys() {
                     candidates.insert(p.clone());
                     candidates.insert(format!("{V1}{p}"));
@@ -983,7 +1008,7 @@ pub async fn run_c15_http(args: &Args, rep: &mut Reporter) {
         }
     };
     let client = http::raw_client();
-    let per_route = args.by_tier(40usize, 600usize);
+    let per_route = args.by_tier(120usize, 600usize);
     let status_route = m.routes.iter().find(|r| r.method == "GET" && r.path.ends_with("/status")).unwrap().clone();
     let body_routes: Vec<Route> = m.routes.iter().filter(|r| r.body.is_some() && !r.probe_only).cloned().collect();
     let panics0 = http::panics_seen();
@@ -1007,6 +1032,7 @@ pub async fn run_c15_http(args: &Args, rep: &mut Reporter) {
             rep.count("http_malformed_requests", 1);
             rep.count(&format!("mutation:{kind}"), 1);
             let p0 = http::panics_seen();
+            vkit::alloc::begin();
             let rp = json!({"check": "c15http", "seed": args.seed, "shard": format!("{}/{}", args.shard, args.shards), "route": r.name, "mutation": kind, "body_hex": hex::encode(&body[..body.len().min(4096)]), "body_len": body.len(), "server_backend": if server_db {"db"} else {"fs"}});
             match http::raw(&client, &server.url, &req, WAIT).await {
                 Ok(resp) => {
@@ -1021,10 +1047,20 @@ pub async fn run_c15_http(args: &Args, rep: &mut Reporter) {
                     rep.violation(&format!("C15:http:{}:no_response", r.name), &format!("a {kind} body made the server close the connection without a response ({e}); panics recorded: {panics:?}"), rp.clone());
                 }
             }
+            let (_peak, largest) = vkit::alloc::end();
+            rep.max("largest_single_allocation_during_request", largest as u64);
+            if largest > (64 << 20) + 64 * body.len() {
+                rep.violation(&format!("C15:http:{}:alloc_out_of_proportion", r.name), &format!("a {kind} body of {} bytes made the process request {} bytes in one allocation", body.len(), largest), rp.clone());
+            }
             let panics = http::panics_since(p0);
             if !panics.is_empty() {
-                let loc = panics[0].split(": ").next().unwrap_or("?").to_string();
-                rep.violation(&format!("C15:http:{}:panic:{loc}", r.name), &format!("a {kind} body made a server task panic: {panics:?}"), rp.clone());
+                // A panic inside `WireEncodeDecode::decode` runs in `spawn_blocking`: the
+                // repo turns it into `Error::Join` and the handler answers 500. Same rule
+                // as the decoder monitors (vcore c15): counted, not flagged.
+                let loc = panics[0].split(": ").next().unwrap_or("?").trim_start_matches("/repo/").to_string();
+                rep.count("panic_caught_by_repo", 1);
+                rep.count(&format!("panic_caught_by_repo_at:{loc}"), 1);
+                rep.sample(json!({"panic_caught_by_repo": panics[0], "route": r.name, "mutation": kind}));
             }
             // the server must keep serving: a valid request of ANOTHER account
             let probe = build(m, &status_route, "valid", &m.b).await.unwrap();
